@@ -93,3 +93,33 @@ def resolved_conds(p, keep=()):
             except Exception:
                 out.append((e.stmt.test, e.value))
     return out
+
+
+def scenario_decide(atom):
+    """decide-hook for symx: the test, with its locals resolved along the path so far, is evaluated three-valued (not / and / or) over
+    the atoms that `atom(expr) -> True / False / None` knows; anything else stays undecided.  Lets a rule fix a scenario
+    ("no conversion given", "both operands are reactions") however the code spells its tests, including through flag locals."""
+    import ast as _ast
+    from .resolve import resolved, path_defs
+
+    def ev(t):
+        v = atom(t)
+        if v is not None:
+            return v
+        if isinstance(t, _ast.UnaryOp) and isinstance(t.op, _ast.Not):
+            v = ev(t.operand)
+            return None if v is None else not v
+        if isinstance(t, _ast.BoolOp):
+            vs = [ev(x) for x in t.values]
+            if isinstance(t.op, _ast.And):
+                return False if any(x is False for x in vs) else (True if all(x is True for x in vs) else None)
+            return True if any(x is True for x in vs) else (False if all(x is False for x in vs) else None)
+        return None
+
+    def decide(test, state):
+        try:
+            r = resolved(test, path_defs(state)) if state is not None and hasattr(state, 'events') else test
+        except Exception:
+            r = test
+        return ev(r)
+    return decide
